@@ -49,6 +49,9 @@ type Op struct {
 	// engine call that ran the callback has returned, not from inside it (from inside it deadlocks by design: the
 	// engine runs callbacks with its PIT lock held)
 	Retry int `json:"retry,omitempty"`
+	// express: not now but from a callback of the engine's timer, AfterMs later (an application that sends on a
+	// schedule). The Interest is expressed - and its lifetime starts - when that callback runs
+	AfterMs int `json:"after_ms,omitempty"`
 	// nack: the Nack header carries no reason (NDNLPv2: "None")
 	NoReason bool `json:"no_reason,omitempty"`
 	// race: the sub-operations (express / data / nack / fire) run as concurrent tasks; a cooperative scheduler lets
@@ -128,6 +131,9 @@ func (Engine) Generate(prop string, r *kit.Rand, tier string) *kit.Scenario[Conf
 			}
 			if r.Chance(0.15) {
 				o.Retry = r.Range(1, 3)
+			}
+			if r.Chance(0.07) {
+				o.AfterMs = kit.Pick(r, []int{1, 10, 50, 100, 500, 1000, 3999, 4000, 5000})
 			}
 			nexp++
 			sc.Ops = append(sc.Ops, o)
@@ -209,6 +215,12 @@ func (Engine) Simplify(sc *kit.Scenario[Config, Op]) []*kit.Scenario[Config, Op]
 		}
 		if o.LifeMs != 0 {
 			mod(i, func(o *Op) { o.LifeMs = 0 })
+		}
+		if o.AfterMs != 0 {
+			mod(i, func(o *Op) { o.AfterMs = 0 })
+		}
+		if o.Retry != 0 {
+			mod(i, func(o *Op) { o.Retry = 0 })
 		}
 		if o.Op == "fire" && o.K != 0 {
 			mod(i, func(o *Op) { o.K = 0 })
@@ -474,6 +486,8 @@ func (e Engine) runBody(t *testing.T, ctx *kit.Ctx, sc *kit.Scenario[Config, Op]
 		return false
 	}
 	var expressFn func(nm string, cbp bool, lifeMs, digest, retry int, fromCb bool) *kit.Result
+	planned, started := 0, 0 // Interests to be expressed from a timer callback: scheduled / callback has run
+	var lastPlanned time.Time
 	var cbFail *kit.Result         // a failure of a retransmission
 	var retryQ []func() *kit.Result // retransmissions asked for by callbacks, made once the engine call has returned
 	drainRetries := func() {
@@ -540,6 +554,22 @@ func (e Engine) runBody(t *testing.T, ctx *kit.Ctx, sc *kit.Scenario[Config, Op]
 		nsent := sentCount()
 		switch op.Op {
 		case "express":
+			if op.AfterMs > 0 {
+				op := op
+				planned++
+				at := nowT().Add(time.Duration(op.AfterMs) * time.Millisecond)
+				if at.After(lastPlanned) {
+					lastPlanned = at
+				}
+				ctx.Probe("express-from-timer-callback")
+				eng.Timer().Schedule(time.Duration(op.AfterMs)*time.Millisecond, func() {
+					started++
+					if rr := expressFn(op.Name, op.CBP, op.LifeMs, op.Digest, op.Retry, false); rr != nil && cbFail == nil {
+						cbFail = rr
+					}
+				})
+				break
+			}
 			if r := expressFn(op.Name, op.CBP, op.LifeMs, op.Digest, op.Retry, false); r != nil {
 				return r
 			}
@@ -860,8 +890,12 @@ func (e Engine) runBody(t *testing.T, ctx *kit.Ctx, sc *kit.Scenario[Config, Op]
 				in := received[op.K]
 				err := in.reply(enc.Wire{dataWire(in.name, 0)})
 				sent := sentCount() - nsent
-				if nowT().After(in.deadline) {
+				if !nowT().Before(in.deadline) {
+					// "only before that Interest's deadline": the deadline itself is too late
 					ctx.Probe("reply-after-deadline")
+					if nowT().Equal(in.deadline) {
+						ctx.Probe("reply-at-the-deadline")
+					}
 					if sent != 0 || err == nil {
 						return fail("C20/reply-after-deadline-transmitted", "", "reply to %s at %v, deadline %v: err=%v, %d packets sent", in.name, nowT().Sub(start), in.deadline.Sub(start), err, sent)
 					}
@@ -881,10 +915,16 @@ func (e Engine) runBody(t *testing.T, ctx *kit.Ctx, sc *kit.Scenario[Config, Op]
 						open++
 					}
 				}
+				if started < planned {
+					open++
+				}
 				if open == 0 && round > 0 {
 					break
 				}
 				far := nowT()
+				if lastPlanned.After(far) {
+					far = lastPlanned
+				}
 				for _, p := range pends {
 					if d := p.t0.Add(p.life); d.After(far) {
 						far = d
